@@ -71,7 +71,7 @@ Proof. intros A B P f l. induction l; simpl; intros; auto. Qed.
 Lemma degrees_ok_analyze : forall pr order, degrees_ok (AnalyzeFiles pr order).
 Proof.
   intros. unfold AnalyzeFiles. apply fold_left_inv; [|apply degrees_ok_empty].
-  intros g m Hg. unfold analyzeModuleDependencies. apply fold_left_inv; [|assumption].
+  intros g m Hg. unfold analyzeModuleDependencies. destruct (shadowed pr m); [assumption|]. apply fold_left_inv; [|assumption].
   intros g' ii Hg'. unfold analyze_import. destruct (ii_tc ii); [assumption|].
   apply fold_left_inv; [|assumption].
   intros g'' r Hg''. destruct (m_is_pkg m && strict_prefixb (m_path m) r); [assumption|]. apply degrees_ok_add. assumption.
